@@ -14,7 +14,7 @@ whose body is in tail position (`FzList true`): self tail calls under `begin`/`c
 loops that `break`/`continue` in the statements before -/
 def Fy (e : Expr) : Bool :=
   Fx [] "" e || (match e with
-    | .defn name ps rest body => rest.isNone && okName name && (name != "") && decide ps.Nodup && ps.all okParam
+    | .defn name ps rest body => okRest rest && okName name && (name != "") && decide (ps ++ rest.toList).Nodup && ps.all okParam
         && !body.isEmpty && FzList true name body
     | _ => false)
 
@@ -25,29 +25,28 @@ def FyList : List Expr → Bool
 
 /-- the two kinds of top-level forms -/
 theorem fy_cases {e : Expr} (h : Fy e = true) : Fx [] "" e = true ∨
-    ∃ name ps body, e = .defn name ps none body ∧ okName name = true ∧ name ≠ "" ∧ ps.Nodup ∧ (∀ p ∈ ps, okParam p = true)
-      ∧ body ≠ [] ∧ FzList true name body = true := by
+    ∃ name ps rest body, e = .defn name ps rest body ∧ okRest rest = true ∧ okName name = true ∧ name ≠ ""
+      ∧ (ps ++ rest.toList).Nodup ∧ (∀ p ∈ ps, okParam p = true) ∧ body ≠ [] ∧ FzList true name body = true := by
   unfold Fy at h
   simp only [Bool.or_eq_true] at h
   rcases h with h | h
   · exact Or.inl h
   · cases e with
     | defn name ps rest body =>
-      simp only [Bool.and_eq_true, Option.isNone_iff_eq_none, bne_iff_ne, ne_eq, decide_eq_true_eq, Bool.not_eq_true',
+      simp only [Bool.and_eq_true, bne_iff_ne, ne_eq, decide_eq_true_eq, Bool.not_eq_true',
         List.isEmpty_eq_false_iff, List.all_eq_true] at h
       obtain ⟨⟨⟨⟨⟨⟨hrest, hname⟩, hne⟩, hnd⟩, hps⟩, hbody⟩, hfz⟩ := h
-      subst hrest
-      exact Or.inr ⟨name, ps, body, rfl, hname, hne, hnd, hps, hbody, hfz⟩
+      exact Or.inr ⟨name, ps, rest, body, rfl, hrest, hname, hne, hnd, hps, hbody, hfz⟩
     | _ => simp at h
 
 theorem compile_total_Fy {e : Expr} (he : Fy e = true) (isFn : Nat → Bool) (c : Ctx) (gs : GS) (hfn : c.funcname = "")
     (hls0 : gs.loopstack = []) :
     ∃ code t gs', (compile isFn c e).run gs = .ok ((code, t), gs') ∧ code ≠ [] ∧ TotX gs gs' code := by
-  rcases fy_cases he with h | ⟨name, ps, body, rfl, hname, hne, hnd, hps, hbody, hfz⟩
+  rcases fy_cases he with h | ⟨name, ps, rest, body, rfl, hrest, hname, hne, hnd, hps, hbody, hfz⟩
   · exact compile_total_Fx [] "" e h isFn c gs [] (Or.inr (Or.inl hfn)) (gsOk_nil hls0) rfl
-  · obtain ⟨b, tl, g2, hb, _, hk2⟩ := compileBegin_total_Fz true name body hbody hfz isFn (bodyCtx c gs name ps body)
-      (gsAlloc isFn gs name ps) (bodyCtx_funcname c gs name ps body) (fun _ => hls0)
-    refine ⟨_, _, _, compile_defn_eq isFn c name ps body gs g2 b tl hne hb, by simp, keepFns_fin isFn gs g2 _ ps b hk2.1, ?_, ?_⟩
+  · obtain ⟨b, tl, g2, hb, _, hk2⟩ := compileBegin_total_Fz true name body hbody hfz isFn (bodyCtx c gs name ps rest body)
+      (gsAlloc isFn gs name ps rest) (bodyCtx_funcname c gs name ps rest body) (fun _ => hls0)
+    refine ⟨_, _, _, compile_defn_eq isFn c name ps rest body gs g2 b tl hne hb, by simp, keepFns_fin isFn gs g2 _ ps rest b hk2.1, ?_, ?_⟩
     · exact hk2.2.1
     · lsin
 
@@ -91,15 +90,16 @@ theorem simF_Fy {n : Nat} {e : Expr} (he : Fy e = true) (isFn : Nat → Bool) (c
     (pre post : List Instr) (hrel : RelF m s rs env) (hgen : GenOk gs r.2 s) (hlo : LsOut pre gs.loops.length r.2.loops.length)
     (hseg : Seg s pre r.1.1 post) :
     SimF r.1.1 m s rs env (Ref.eval n e env rs) := by
-  rcases fy_cases he with h | ⟨name, ps, body, rfl, hname, hne, hnd, hps, hbody, hfz⟩
+  rcases fy_cases he with h | ⟨name, ps, rest, body, rfl, hrest, hname, hne, hnd, hps, hbody, hfz⟩
   · exact simF_of_simX_nil ((xclaims n).1 [] "" e h isFn c gs r hc (Or.inr (Or.inl hfn)) [] rfl (gsOk_nil hls0) m s rs env pre post
       hrel hgen (fun _ h => by cases h) hgen.loops hlo hseg)
   · cases n with
     | zero => rw [Ref.eval]; trivial
     | succ k =>
-      obtain ⟨b, tl, g2, hb, _, hk2⟩ := compileBegin_total_Fz true name body hbody hfz isFn (bodyCtx c gs name ps body)
-        (gsAlloc isFn gs name ps) (bodyCtx_funcname c gs name ps body) (fun _ => hls0)
-      exact simF_defn_core name ps body hname hne hnd hps hbody hfz (fun _ => hls0) isFn c g2 b tl hb hk2.1 r hc hrel hgen hseg
+      obtain ⟨b, tl, g2, hb, _, hk2⟩ := compileBegin_total_Fz true name body hbody hfz isFn (bodyCtx c gs name ps rest body)
+        (gsAlloc isFn gs name ps rest) (bodyCtx_funcname c gs name ps rest body) (fun _ => hls0)
+      exact simF_defn_core name ps rest body hrest hname hne hnd hps hbody hfz (fun _ => hls0) isFn c g2 b tl hb hk2.1 r hc hrel
+        hgen hseg
 
 /-- a program text: its forms one after the other -/
 theorem simF_FyList : ∀ (n : Nat) (es : List Expr), es ≠ [] → FyList es = true → ∀ isFn c gs r,
